@@ -90,9 +90,11 @@ func c25Body(sc c25Scenario, obs *c25Obs) func() {
 			for pass := 0; pass < 2; pass++ {
 				snapshot := append([]c25Written{}, obs.written...)
 				for _, w := range snapshot {
-					truncStarted := obs.truncAt >= 0
 					c, err := cdm.Chunk(w.ref)
 					seq, _ := w.ref.Unpack()
+					// evaluated AFTER the read returned: a truncation that started while the read was
+					// in progress may legitimately have removed the file
+					truncStarted := obs.truncAt >= 0
 					if err != nil {
 						if truncStarted && seq < obs.truncSeq {
 							continue // its file may legitimately be gone
@@ -262,6 +264,30 @@ func TestVerifC25(t *testing.T) {
 		for i := 0; i < 2; i++ {
 			tr, obs := runOne(sc, rp.Choices)
 			sig, msg := c25Eval(sc, tr, obs)
+			if i == 0 {
+				var sb strings.Builder
+				lastT, n := -1, 0
+				var kinds []string
+				for _, p := range tr.Points {
+					if p.Thread != lastT {
+						if lastT >= 0 {
+							fmt.Fprintf(&sb, "T%d x%d %v; ", lastT, n, kinds)
+						}
+						lastT, n, kinds = p.Thread, 0, nil
+					}
+					n++
+					if len(kinds) < 40 {
+						kinds = append(kinds, fmt.Sprintf("%s%d", p.Kind, p.Obj))
+					}
+				}
+				fmt.Fprintf(&sb, "T%d x%d %v", lastT, n, kinds)
+				t.Logf("schedule: %s", sb.String())
+				t.Logf("written=%d truncAt=%d truncSeq=%d readErrs=%v", len(obs.written), obs.truncAt, obs.truncSeq, obs.readErrs)
+				ents, _ := os.ReadDir(obs.dir)
+				for _, e := range ents {
+					t.Logf("file %s", e.Name())
+				}
+			}
 			os.RemoveAll(obs.dir)
 			sigs = append(sigs, sig)
 			if i == 1 && sig != "" {
